@@ -3,7 +3,9 @@
    schedule; sequentially consistent atomics).  Nothing but statements closed by [exact] and Print Assumptions. *)
 From Coq Require Import ZArith List Bool.
 Import ListNotations.
-From VF Require Import C05.Scq C05.ProofsScqInv C05.ProofsScqSafe C05.ProofsScqMutant.
+From VF Require C05.Model.
+From VF Require Import C05.Aspects C05.Lin.
+From VF Require Import C05.Scq C05.ProofsScqInv C05.ProofsScqSafe C05.ProofsScqMutant C05.ProofsScqTie C05.ProofsScqOrd C05.ProofsScqFifo.
 Open Scope Z_scope.
 
 (* (a) the structural invariant [Inv] (ProofsScqInv.v) holds in every reachable state, for every ring size n >= 1,
@@ -96,6 +98,78 @@ Theorem C05_scq_needs_isSafe :
    wlog st = [(1, 1)] /\ th st 0%nat = E5 2 2 /\ plog st = [2] /\ ring st 0 = mkE false true 1 0).
 Proof. exact (conj mutant_loses_refuted faithful_refuses). Qed.
 
+(* (d) FIFO, PARTIAL.  Full statement aimed at: for every schedule and every quiescent reachable state (all calls
+   returned), the completed calls - as a timed history over tickets: Enqueue that wrote with ticket T = HEnq T,
+   Dequeue that took ticket H = HDeq H, empty answer = HEmpty, failed Enqueues left out, stamps = step counter at
+   invocation / return - satisfy all four conditions of the property statement, hence are linearizable
+   (C05_aspects_lin).
+   PROVED: three of the four - no fresh value, no repeat, real-time enqueue order kept by dequeues (incl. 'b
+   dequeued => earlier-enqueued a dequeued') - plus unique values and well-formed stamps; therefore the history is
+   linearizable as soon as its empty answers are justified (C05_scq_lin_if_empty_justified).
+   MISSING, and in this generality FALSE: the fourth condition.  A ring on its own, used again after an Enqueue
+   failed, answers empty with a value inside whose Enqueue returned long before: every failed attempt leaves an
+   unwritten tail ticket behind, and 2n-1 unwritten tickets in front of a written one exhaust the threshold
+   (C05_scq_empty_refuted: ONE thread, n = 1).  LSCQ closes a ring right after the first failed Enqueue, so at
+   that level the run needs >= 2n-1 enqueuers failing on the same ring before it is closed.  A second way, with no
+   failed Enqueue at all: C05_scq_threshold_refuted below. *)
+Theorem C05_scq_fifo_order_partial : forall n, 1 <= n -> forall sched,
+  let st := run n (init n) sched in
+  quiescent st ->
+  let h := hist_of (trace st) in
+  Stamped h /\ UniqueValues h /\ NoFresh h /\ NoRepeat h /\ OrderKept h.
+Proof. exact scq_fifo_order. Qed.
+Theorem C05_scq_lin_if_empty_justified : forall n, 1 <= n -> forall sched,
+  let st := run n (init n) sched in
+  quiescent st -> EmptyJustified (hist_of (trace st)) -> fifo_linearizable (hist_of (trace st)).
+Proof. exact scq_linearizable_if_empty_justified. Qed.
+Theorem C05_scq_empty_refuted :
+  let st := run 1 (init 1) false_empty_schedule in
+  quiescent st /\
+  map (fun x => snd x) (trace st) =
+    [EvEnq 1 (Some 1); EvEnq 2 None; EvEnq 3 None; EvEnq 4 None; EvDeq (Some (1, 1)); EvEnq 9 (Some 5); EvDeq None] /\
+  ring st 0 = mkE true false 5 9 /\ thr st = -1 /\
+  ~ EmptyJustified (hist_of (trace st)) /\ ~ fifo_linearizable (hist_of (trace st)).
+Proof. exact empty_refuted. Qed.
+(* ... and, without any failed Enqueue, once more than 2n-1 dequeuers are stale (took tickets on an empty ring and
+   stall before loading tail): their late threshold decrements drive the threshold below zero AFTER an Enqueue
+   completed, a new Dequeue answers empty, a later one returns that value: not linearizable (n = 2, 8 threads;
+   the published SCQ assumes at most n threads, the Go code has no such bound) *)
+Theorem C05_scq_threshold_refuted :
+  let st := run 2 (init 2) stale_schedule in
+  quiescent st /\
+  map (fun x => (fst (fst (fst x)), snd x)) (trace st) =
+    [(0%nat, EvEnq 100 (Some 2)); (1%nat, EvDeq (Some (2, 100))); (0%nat, EvEnq 7 (Some 8)); (4%nat, EvDeq None);
+     (5%nat, EvDeq None); (6%nat, EvDeq None); (0%nat, EvEnq 8 (Some 9)); (7%nat, EvDeq (Some (8, 7)));
+     (1%nat, EvDeq (Some (9, 8))); (2%nat, EvDeq None); (3%nat, EvDeq None)] /\
+  (forall i a b v, ~ In (i, a, b, EvEnq v None) (trace st)) /\
+  ~ EmptyJustified (hist_of (trace st)) /\ ~ fifo_linearizable (hist_of (trace st)).
+Proof. exact threshold_refuted. Qed.
+(* the real-time order facts behind (d): tickets follow the order of calls *)
+Theorem C05_scq_ticket_order : forall n, 1 <= n -> forall sched, Ord (run n (init n) sched).
+Proof. exact ord_reach. Qed.
+
+(* TIE to the functional model (Model.v: the model C05_seq / C05_ring_* are about and that the correspondence runs
+   execute against the real code at ring size 65536).  [Sim q st]: head, tail, closed bit, threshold agree and
+   slot `remap n cl r` of the functional ring equals residue slot r of the small-step ring.  One call executed by
+   ONE thread of the small-step machine with nobody else moving ends in a state that simulates the functional
+   model's result state and returns the functional model's answer ([mcall]: Model.enq_loop / Model.scq_dequeue;
+   fuel exhaustion excluded), for every n >= 1, cl | n: the small-step machine run by one thread IS the
+   functional model ... *)
+Theorem C05_scq_solo_call : forall n cl, 1 <= n -> 1 <= cl -> (cl | n) ->
+  forall fuel q st i c q' o,
+  Sim n cl q st -> th st i = Idle -> mcall n cl fuel q c = (q', Some o) ->
+  exists k st', run n st (label_of i c :: repeat (LStep i) k) = st' /\
+    Sim n cl q' st' /\ others st st' i /\ th st' i = Idle /\
+    exists e, evs st' = evs st ++ [(i, e)] /\ ev_ok e o.
+Proof. exact solo_call. Qed.
+(* ... and so for every sequence of calls from the initial states *)
+Theorem C05_scq_solo_run : forall n cl, 1 <= n -> 1 <= cl -> (cl | n) ->
+  forall fuel cs i q' outs,
+  mseq n cl fuel (Model.scq_init Z n) cs = Some (q', outs) ->
+  exists sched st', run n (init n) sched = st' /\ Forall (solo_label i) sched /\ Sim n cl q' st' /\
+    exists es, map snd (evs st') = es /\ Forall2 ev_ok es outs.
+Proof. exact solo_from_init. Qed.
+
 (* non-vacuity: two enqueuers and two dequeuers interleaved on a ring of two slots (the first Dequeue sees the
    initial threshold -1 and answers empty, the second takes the value of the smaller ticket) *)
 Example C05_scq_nonvacuous :
@@ -114,3 +188,10 @@ Print Assumptions C05_scq_slots.
 Print Assumptions C05_scq_safety.
 Print Assumptions C05_scq_no_loss.
 Print Assumptions C05_scq_needs_isSafe.
+Print Assumptions C05_scq_solo_call.
+Print Assumptions C05_scq_solo_run.
+Print Assumptions C05_scq_fifo_order_partial.
+Print Assumptions C05_scq_lin_if_empty_justified.
+Print Assumptions C05_scq_empty_refuted.
+Print Assumptions C05_scq_ticket_order.
+Print Assumptions C05_scq_threshold_refuted.
